@@ -234,14 +234,14 @@ func (e Ev) coq(ids map[uint64]Ident) string {
 	case "join":
 		w := *e.Who
 		ids[e.ID] = w
-		fr := "(mk_frames 0 0%Z [48] (Finite [48]))"
+		fr := "(mk_frames 0%N 0%Z [48]%N (Finite [48]%N))"
 		return lib.App("Register", lib.App("mk_member", lib.N(e.ID), cBytes(w.Topic), cScopes(w.ScopesNil, w.Scopes), lib.Bool(w.CanRead), lib.Bool(w.CanWrite),
 			"[]", cBytes(w.ExpiresAt), cBytes(w.UserAgent), cBytes(w.Addr), fr, fr))
 	case "leave":
 		return lib.App("Unregister", lib.N(e.ID), cBytes(ids[e.ID].Topic))
 	case "traffic":
 		sz, _ := floatLex(float64(e.Size))
-		return lib.App("Traffic", lib.N(e.ID), "Tx", lib.App("mk_frames", lib.N(uint64(e.Count)), "0%Z", cBytes(sz), "(Finite [49])"))
+		return lib.App("Traffic", lib.N(e.ID), "Tx", lib.App("mk_frames", lib.N(uint64(e.Count)), "0%Z", cBytes(sz), "(Finite [49]%N)"))
 	}
 	panic("unknown event " + e.K)
 }
@@ -270,4 +270,16 @@ func sameIdent(a, b Ident) bool {
 		}
 	}
 	return true
+}
+
+func marshalReps(reps []Rep) []byte {
+	var reports []*crossbar.ClientReport
+	for _, r := range reps {
+		reports = append(reports, r.toGo())
+	}
+	b, err := json.Marshal(reports)
+	if err != nil {
+		return []byte("[]")
+	}
+	return b
 }
